@@ -196,6 +196,8 @@ func (c *compiler) compileTryStatement(v *ast.TryStatement, needResult bool) {
 		if bodyNeedResult && finallyBreaking != nil && lp == -1 {
 			c.emit(clearResult)
 		}
+		// (the redirection of the branch statements of the try and catch blocks does not apply to the finally block itself)
+		c.block.breaking = nil
 		c.compileBlockStatement(v.Finally, false)
 		c.emit(leaveFinally{})
 	} else {
